@@ -20,6 +20,7 @@ structure ChainGood (C : List Anc) : Prop where
   ok : ScopeOK C
   keys : KeysHead C
   full : C.tail ≠ [] → FullHead C
+  catchFull : CatchFullHead C
   leak : C.tail ≠ [] → LeakHead C
   declRefs : ∀ A ∈ C.head?, ∀ x ∈ A.decl, x ∈ ckeys A.refs
   noArgs : ChainNoArgs C
@@ -49,6 +50,9 @@ inductive Al (τ : Tau) : List Layer → List Anc → Prop where
   | func (p : SPath) (names : List String) (E : List Layer) (A : Anc) (C : List Anc) : A.kind = .func →
       (∀ x, x ∈ names ↔ x ∈ A.decl) → (∀ n, tauN τ .var p n = applyTable A.remapped n) → ChainGood (A :: C) → C ≠ [] →
       Al τ E C → Al τ ({ kind := .var, scope := p, names := names } :: E) (A :: C)
+  | «catch» (p : SPath) (c : String) (u : Nat) (E : List Layer) (K : Anc) (C : List Anc) : K.kind = .catch c u →
+      (∀ n, tauN τ .catch p n = applyTable K.remapped n) → ChainGood (K :: C) → C ≠ [] →
+      Al τ E C → Al τ ({ kind := .catch, scope := p, names := [c] } :: E) (K :: C)
 
 theorem contains_iff {l : List String} {x : String} : l.contains x = true ↔ x ∈ l := by simp
 
@@ -68,6 +72,31 @@ theorem lookup_none_of_not_decl {A : Anc} {C : List Anc} (hk : A.kind = .func) (
   have := hg.keys p hp
   simp only [declaredBy, hk] at this
   exact hn (hpn ▸ this)
+
+/-- the catch symbol has a non-empty replacement, and `resolve` answers it -/
+theorem resolve_catch {K : Anc} {C : List Anc} {c : String} {u : Nat} (hk : K.kind = .catch c u) (hg : ChainGood (K :: C)) :
+    ∃ v, (c, v) ∈ K.remapped ∧ v ≠ "" ∧ resolveChain (K :: C) c = v ∧ applyTable K.remapped c = v := by
+  obtain ⟨v, hv, hne⟩ := hg.catchFull c u hk
+  have hne' : (v == "") = false := by simpa using hne
+  exact ⟨v, lookup_mem' hv, hne, by simp [resolveChain, hv, hne'], by simp [applyTable, hv, hne']⟩
+
+theorem lookup_none_catch {K : Anc} {C : List Anc} {c : String} {u : Nat} (hk : K.kind = .catch c u)
+    (hg : ChainGood (K :: C)) {n : String} (hn : n ≠ c) : K.remapped.lookup n = none := by
+  apply lookup_none_of_not_key
+  intro p hp hpn
+  have := hg.keys p hp
+  simp only [declaredBy, hk, List.mem_singleton] at this
+  exact hn (hpn ▸ this)
+
+theorem resolve_through_catch {K : Anc} {C : List Anc} {c : String} {u : Nat} (hk : K.kind = .catch c u)
+    (hg : ChainGood (K :: C)) {n : String} (hn : n ≠ c) : resolveChain (K :: C) n = resolveChain C n := by
+  simp [resolveChain, lookup_none_catch hk hg hn, hk, SKind.isFunc]
+
+theorem effRefs_catch_keys {K : Anc} {C : List Anc} {c : String} {u : Nat} (hk : K.kind = .catch c u) {n : String} :
+    n ∈ ckeys (effRefs (K :: C)) ↔ n = c ∨ n ∈ ckeys (effRefs C) := by
+  simp only [effRefs, hk]
+  rw [mem_ckeys_cupdate]
+  simp [ckeys]
 
 /-- **the link**: capture-freedom and consistency of `resolve` w.r.t. the aligned environment -/
 theorem lookup_link (τ : Tau) : ∀ {E : List Layer} {C : List Anc}, Al τ E C → ∀ (n : String), n ∈ ckeys (effRefs C) →
@@ -158,11 +187,83 @@ theorem lookup_link (τ : Tau) : ∀ {E : List Layer} {C : List Anc}, Al τ E C 
         rw [lookupEnv_skip hnocap (by simp [hne']),
           lookupEnv_skip (l := { kind := .var, scope := p, names := names }) h1 (by simp [hne])]
         exact ih n hleak
+  | «catch» p c u E K C hk htau hg hC _ ih =>
+    intro n hn
+    rw [mapEnv_cons]
+    obtain ⟨v, _, _, hrv, hav⟩ := resolve_catch hk hg
+    by_cases hc : n = c
+    · subst hc
+      have h1 : ([n] : List String).contains n = true := by simp
+      have h2 : (mapLayer τ { kind := .catch, scope := p, names := [n] }).names.contains (resolveChain (K :: C) n) = true := by
+        simp only [mapLayer, List.map_cons, List.map_nil]
+        rw [hrv, htau n, hav]
+        simp
+      rw [lookupEnv_hit h2, lookupEnv_hit (l := { kind := .catch, scope := p, names := [n] }) h1]
+      simp [mapLayer, mapBinder, htau n, hrv, hav]
+    · have h1 : ([c] : List String).contains n = false := by simpa using hc
+      have hres := resolve_through_catch hk hg hc
+      have hnC : n ∈ ckeys (effRefs C) := by
+        rcases (effRefs_catch_keys hk).1 hn with h | h
+        · exact absurd h hc
+        · exact h
+      have h2 : (mapLayer τ { kind := .catch, scope := p, names := [c] }).names.contains (resolveChain (K :: C) n) = false := by
+        simp only [mapLayer, List.map_cons, List.map_nil]
+        rw [htau c, hav]
+        apply Bool.eq_false_iff.2
+        intro hcon
+        have heq : resolveChain (K :: C) n = v := by simpa using hcon
+        have hcr : c ∈ ckeys (effRefs (K :: C)) := (effRefs_catch_keys hk).2 (Or.inl rfl)
+        have := hg.ok.inj c hcr n hn (by rw [hrv, heq])
+        exact hc this.symm
+      rw [lookupEnv_skip h2 (by simp [mapLayer]),
+        lookupEnv_skip (l := { kind := .catch, scope := p, names := [c] }) h1 (by simp), hres]
+      exact ih n hnC
 
 /-- a declaration of the innermost record is renamed by that record -/
 theorem decl_link_func {A : Anc} {C : List Anc} (hk : A.kind = .func) (hg : ChainGood (A :: C)) (hC : C ≠ [])
     {m : String} (hm : m ∈ A.decl) : resolveChain (A :: C) m = applyTable A.remapped m := by
   obtain ⟨v, _, _, hrv, hav⟩ := resolve_declared hk hg hC hm
   rw [hrv, hav]
+
+
+/-- the variable environment of an environment: the first record that is not a catch clause -/
+def varLayer : List Layer → Option (BKind × SPath)
+  | [] => none
+  | L :: E => if L.kind == .catch then varLayer E else some (L.kind, L.scope)
+
+/-- a symbol declared in the variable environment (through catch scopes that do not bind it) is renamed by that record, and
+is a key of the innermost scope's `referenced_symbols` -/
+theorem decl_link {τ : Tau} : ∀ {E : List Layer} {C : List Anc}, Al τ E C → ∀ {vk : BKind} {vs : SPath},
+    varLayer E = some (vk, vs) → ∀ {n : String}, varDeclOK C n = true →
+    resolveChain C n = tauN τ vk vs n ∧ n ∈ ckeys (effRefs C) := by
+  intro E C h
+  induction h with
+  | root names A hk hnames htau hg =>
+    intro vk vs hv n hn
+    simp only [varLayer, Option.some.injEq, Prod.mk.injEq] at hv
+    have hkc : (BKind.global == BKind.catch) = false := by decide
+    simp only [hkc, Bool.false_eq_true, if_false, Option.some.injEq, Prod.mk.injEq] at hv
+    obtain ⟨rfl, rfl⟩ := hv
+    simp only [varDeclOK, hk] at hn
+    have hd : n ∈ A.decl := by simpa using hn
+    refine ⟨by rw [resolveChain_single, htau n], ?_⟩
+    simp only [effRefs, hk]
+    exact hg.declRefs A (by simp) n hd
+  | func p names E A C hk hnames htau hg hC _ _ =>
+    intro vk vs hv n hn
+    have hkc : (BKind.var == BKind.catch) = false := by decide
+    simp only [varLayer, hkc, Bool.false_eq_true, if_false, Option.some.injEq, Prod.mk.injEq] at hv
+    obtain ⟨rfl, rfl⟩ := hv
+    simp only [varDeclOK, hk] at hn
+    have hd : n ∈ A.decl := by simpa using hn
+    refine ⟨by rw [decl_link_func hk hg hC hd, htau n], ?_⟩
+    simp only [effRefs, hk]
+    exact hg.declRefs A (by simp) n hd
+  | «catch» p c u E K C hk htau hg hC _ ih =>
+    intro vk vs hv n hn
+    simp only [varLayer, beq_self_eq_true, if_true] at hv
+    simp only [varDeclOK, hk, Bool.and_eq_true, bne_iff_ne, ne_eq] at hn
+    obtain ⟨h1, h2⟩ := ih hv hn.2
+    exact ⟨by rw [resolve_through_catch hk hg hn.1, h1], (effRefs_catch_keys hk).2 (Or.inr h2)⟩
 
 end CalmVerif.Obf
